@@ -1,1 +1,3 @@
 pub mod text;
+pub mod numeric_gates;
+pub mod numeric_waveforms;
